@@ -229,8 +229,10 @@ func newShardOwner(s ShardInfo, ownerFreqs map[int]int) (uint64, error) {
 		minFreq int
 	)
 
+	// Ties are broken by the smallest node ID so that every replica applying
+	// the command picks the same owner regardless of map iteration order.
 	for id, freq := range ownerFreqs {
-		if minId == -1 || freq < minFreq {
+		if minId == -1 || freq < minFreq || (freq == minFreq && id < minId) {
 			minId, minFreq = int(id), freq
 		}
 	}
